@@ -1085,7 +1085,8 @@ func (in *Interp) equal(a, b Value) *Term {
 			if x.known && y.known {
 				return tt.Bool(x.s == y.s)
 			}
-			in.end("error", "comparison of opaque strings")
+			// contents of formatted strings are not modelled: either outcome is possible
+			return in.fresh("strcmp", SBool)
 		}
 	}
 	in.end("error", "equal on %T,%T at %s", a, b, in.where())
